@@ -19,17 +19,92 @@ def run_idem(case):
         r1 = type_transform(case["value"], T, o)
     except Exception as e:
         return ("rejected",)
+    f1 = core.freeze(r1)
     try:
         r2 = type_transform(r1, T, o)
     except Exception as e:
-        return ("not-idempotent", repr(r1), "re-parse raised %s" % type(e).__name__)
+        return ("not-idempotent", repr(r1), "re-parse raised %s" % type(e).__name__, f1)
     try:
         same = (r2 == r1) or (r1 != r1)
     except Exception:
         same = True
     if not same:
-        return ("not-idempotent", repr(r1), repr(r2))
-    return ("idempotent",)
+        return ("not-idempotent", repr(r1), repr(r2), f1)
+    return ("idempotent", f1, exact_repr(core.freeze(r2)) == exact_repr(f1), repr(r2))
+
+
+def exact_repr(v):
+    """a text that is equal for two values exactly when they have the same classes and contents position by position
+    (True is not 1, 1 is not 1.0, Decimal('1.0') is not Decimal('1.00'); sets compared as sets)"""
+    t = type(v)
+    if t in (list, tuple):
+        return "%s(%s)" % (t.__name__, ",".join(exact_repr(x) for x in v))
+    if t in (set, frozenset):
+        return "%s{%s}" % (t.__name__, ",".join(sorted(exact_repr(x) for x in v)))
+    if t is dict:
+        return "dict{%s}" % ",".join("%s:%s" % (exact_repr(k), exact_repr(x)) for k, x in v.items())
+    if isinstance(v, core.Inst):
+        return "Inst:%s{%s}" % (v.cls.__name__, ",".join("%s:%s" % (k, exact_repr(x)) for k, x in v.items))
+    return "%s:%r" % (t.__name__, v)
+
+
+FRAG_PRELUDE = """
+Definition fcase := (options * ty * pyval)%type.
+Definition outside (k : fcase) : bool := let '(o, t, w) := k in negb (in_fragment o t w).
+"""
+
+
+def fragment_suite(res, accepted):
+    """the theorem C03_reparse_returns_the_result on the implementation: for every accepted case, Coq decides (Spec/Stable.v,
+    in_fragment: throw policies, stable type, no bool where an int is declared in the result) whether the theorem speaks
+    about it; inside the fragment the implementation's second parse must return the first result exactly (same classes, same
+    contents) -- no listed finding applies there"""
+    import utype
+    world = decl.World()
+    lines, idx = [], []
+    for i, (c, o) in enumerate(accepted):
+        f1 = o[1] if o[0] == "idempotent" else o[3]
+        try:
+            T = parsesuite.build(c["spec"])
+            opt = utype.Options(**c["options"])
+            enc = world.encoder()
+            lines.append("(%s,\n  %s,\n  %s)" % (decl.reflect_options(world, opt), decl.reflect_type(world, T), enc.val(f1)))
+            idx.append(i)
+        except (core.Unencodable, decl.Unreflectable):
+            pass
+    per = 400
+    shards = ["%s\nDefinition cases : list fcase := [\n%s\n].\nGoal True. idtac \"MISMATCH\". exact I. Qed.\n"
+              "Eval vm_compute in (bad_idx outside cases).\nGoal True. idtac \"SKIPS\". exact I. Qed.\nEval vm_compute in 0%%nat.\n"
+              % (FRAG_PRELUDE, ";\n".join(lines[s:s + per])) for s in range(0, len(lines), per)]
+    b = core.build(["Spec/Stable.vo"])
+    if not b["ok"]:
+        res.broken.append(dict(kind="proof", name=b["failed"], detail=b["log"][-2000:]))
+        return
+    inside = []
+    for k, (rc, out) in enumerate(core.run_sharded("c03_fragment", ["Parse", "Stable"], shards)):
+        got = core.parse_nat_list(out, "MISMATCH") if rc == 0 else None
+        if got is None:
+            res.broken.append(dict(kind="correspondence", name="reparse-fragment (coqc failed)", detail=out[-1500:]))
+            continue
+        inside.extend(idx[k * per + j] for j in got)
+    bad = 0
+    shapes = {}
+    for i in inside:
+        c, o = accepted[i]
+        shapes[c["spec"][0]] = shapes.get(c["spec"][0], 0) + 1
+        if o[0] == "not-idempotent":
+            bad += 1
+            res.violations.append(dict(case=repr(c), observed="first parse %s, second %s" % (o[1], o[2]),
+                                       what="re-parsing a parse result does not return an equal value (inside the fragment of theorem C03_reparse_returns_the_result)"))
+        elif not o[2]:
+            bad += 1
+            res.violations.append(dict(case=repr(c), observed="first parse %s, second %s" % (exact_repr(o[1]), o[3]),
+                                       what="re-parsing a parse result returns an equal value of other classes (inside the fragment of theorem C03_reparse_returns_the_result, where the model returns the result itself)"))
+    res.add_suite("reparse-fragment", len(lines), len(inside),
+                  [dict(case=repr(accepted[inside[0]][0]), result="second parse returned the first result exactly")] if inside else [],
+                  "the accepted cases of the idem suite classified in Coq by in_fragment (Spec/Stable.v); inside the fragment the "
+                  "theorem applies and the implementation must return the first result exactly; non-trivial = inside the fragment",
+                  dict(inside_fragment=len(inside), type_shapes_inside=shapes, failures=bad))
 
 
 def lax_fixed_point(case):
@@ -175,6 +250,7 @@ def idem_suite(res, tier, seed):
             if repr(c) in bad_keys:
                 res.violations.append(dict(case=repr(c), observed="first parse %s, second %s (matches a listed finding's shape, but the model disagrees with the implementation here)" % (o[1], o[2]),
                                            what="re-parsing a parse result does not return an equal value"))
+    fragment_suite(res, accepted)
     res.add_suite("idem", len(cases), distinct, [dict(case=repr(accepted[0][0]), result=accepted[0][1][0])] if accepted else [],
                   "random (type, options, value); every accepted result is parsed again with the same type and options on "
                   "the implementation and compared with ==; non-trivial = accepted by the first parse; distinct by case",
@@ -240,9 +316,12 @@ def main(tier, seed):
     findings.replay_all(res, PID, {"C03-carry": carry_finding, "C03-and-hetero": and_finding, "C03-xor-output": xor_finding, "C03-preserve": preserve_finding, "C03-exclude": exclude_finding,
                                     "C03-union-stage-shift": union_shift_finding})
     return core.finish(res, "make -C coq Props/C03.vo && coqc (Print Assumptions audit)", "see suites", search=None,
-                       level_note="lax validators: theorems on the translated source (Gen/Constraints.v). Idempotence of "
-                                  "whole types (containers, unions, data classes) is NOT yet a theorem: it is carried by the "
-                                  "parse correspondence and by the idempotence oracle on the implementation (partial)")
+                       level_note="lax validators: theorems on the translated source (Gen/Constraints.v). Idempotence of whole types is a "
+                                  "theorem for the fragment `stable` of Spec/Stable.v (C03_reparse_returns_the_result; the "
+                                  "reparse-fragment suite classifies every generated case in Coq and checks the implementation "
+                                  "inside it); outside it (fixed-length tuples, mappings, &, unions of constrained types, lax "
+                                  "constraints inside types, exclude / preserve policies) it is carried by the parse "
+                                  "correspondence and the idempotence oracle on the implementation (partial)")
 
 
 def replay(path):
